@@ -73,6 +73,7 @@ private:
 
     void setMessageType(const Packet& packet);
     void addNewCMPFrame(const Packet& packet);
+    void closeLastFrame();
     void addNewDataHeader(const Packet& packet, uint16_t bytesToAdd, SegmentType segmentationFlag);
 
     void createCmpFrameTemplate(const Packet& packet);
